@@ -66,6 +66,40 @@ class watchdog(object):
         return False
 
 
+class tracing_on(object):
+    """the library's debug tracing switched on in every loaded bacpypes module (what --debug does) for the duration"""
+
+    def __enter__(self):
+        import logging
+        mods = [m for n, m in list(sys.modules.items()) if n.startswith("bacpypes") and hasattr(m, "_debug")]
+        self.old = [(m, m._debug) for m in mods]
+        self.lvl = logging.getLogger("bacpypes").level
+        for m in mods:
+            m._debug = 1
+        logging.getLogger("bacpypes").setLevel(logging.DEBUG)
+        return self
+
+    def __exit__(self, *a):
+        import logging
+        for m, o in self.old:
+            m._debug = o
+        logging.getLogger("bacpypes").setLevel(self.lvl)
+        return False
+
+
+def traced(judge):
+    """wrap a judge: a case carrying "dbg" is judged with the library's debug tracing switched on in every bacpypes module
+    (tracing must not change behaviour) and labelled accordingly"""
+    def run(case):
+        if not (isinstance(case, dict) and case.get("dbg")):
+            return judge(case)
+        with tracing_on():
+            v = judge(dict((k, x) for k, x in case.items() if k != "dbg"))
+        v.labels = tuple(v.labels) + ("tracing-on",)
+        return v
+    return run
+
+
 def h64(obj):
     if not isinstance(obj, (bytes, bytearray)):
         obj = json.dumps(obj, sort_keys=True, default=repr).encode()
@@ -98,10 +132,14 @@ class Ctx(object):
         self.trail = collections.deque(maxlen=200)   # raw items of tight loops; converted by fail(..., trail_case=fn)
 
     # -- counting ---------------------------------------------------------
+    tracing = False       # set per shard from spec["tracing"]: every case of the shard is judged with the library's debug tracing on
+
     def check(self, case, judge=None):
+        if self.tracing and isinstance(case, dict) and "dbg" not in case:
+            case = dict(case, dbg=1)
         """Judge one case with the module's oracle, count it, collect failures.
         Never raises for a property failure (collect mode)."""
-        v = (judge or self.mod.judge)(case)
+        v = traced(judge or self.mod.judge)(case)
         self.recent.append(case)
         self.evaluations += 1
         for lab in v.labels:
@@ -113,7 +151,7 @@ class Ctx(object):
                 raise StopShard()          # every further case would cost the full watchdog again
             return v
         if v.nontrivial:
-            hv = h64(v.key if v.key is not None else case)
+            hv = h64(v.key if v.key is not None else dict((k, x) for k, x in case.items() if k != "dbg") if isinstance(case, dict) else case)
             if hv not in self.nt_hashes:
                 self.nt_hashes.add(hv)
                 n = len(self.nt_hashes)
@@ -126,13 +164,18 @@ class Ctx(object):
     def bulk(self, evaluations, nontrivial_distinct=0, label=None, sample=None):
         """Account for a tight enumeration loop whose cases are distinct by construction."""
         self.evaluations += evaluations
-        self.nt_bulk += nontrivial_distinct
+        if not self.tracing:       # a traced repeat of an enumeration adds no distinct case
+            self.nt_bulk += nontrivial_distinct
         if label:
             self.labels[label] += evaluations
+        if self.tracing:
+            self.labels["tracing-on"] += evaluations
         if sample is not None and len(self.samples) < 6:
             self.samples.append(sample)
 
     def fail(self, case, sig, msg, trail_case=None):
+        if self.tracing and isinstance(case, dict) and "dbg" not in case:
+            case = dict(case, dbg=1)
         if sig in self.known_open:
             self.excluded_known[sig] += 1
             return
@@ -191,7 +234,7 @@ class Ctx(object):
         """Re-run the same seeded search raising only on `sig`; Hypothesis shrinks;
         the last failing example it replays is the minimal one."""
         from hypothesis import given, seed
-        j = judge or self.mod.judge
+        j = traced(judge or self.mod.judge)
         last = {}
 
         class Found(Exception):
@@ -204,6 +247,8 @@ class Ctx(object):
             if time.time() - t0 > budget:
                 return                      # out of time: every further candidate "passes", the shrinker stops by itself
             case = to_case(x) if to_case else x
+            if self.tracing and isinstance(case, dict) and "dbg" not in case:
+                case = dict(case, dbg=1)
             v = j(case)
             for s, m in v.fails:
                 if s == sig:
@@ -240,10 +285,10 @@ def judge_case(mod, case):
         fails = []
         last = Verdict()
         for c in case["cases"]:
-            last = mod.judge(c)
+            last = traced(mod.judge)(c)
             fails.extend(last.fails)
         return Verdict(fails, last.nontrivial, last.labels, last.key)
-    return mod.judge(case)
+    return traced(mod.judge)(case)
 
 
 def _fresh_worker(args):
@@ -289,8 +334,14 @@ def _worker(args):
         boot.boot()
         mod = importlib.import_module(modname)
         ctx = Ctx(mod, tier, seed, idx, known_open)
+        ctx.tracing = bool(isinstance(spec, dict) and spec.get("tracing"))
         try:
-            mod.run(spec, ctx)
+            if ctx.tracing:
+                # tight enumeration loops do not go through the judge: the whole shard runs traced
+                with tracing_on():
+                    mod.run(spec, ctx)
+            else:
+                mod.run(spec, ctx)
         except StopShard:
             ctx.notes["stopped_early_after_stalls"] = 1
         r = ctx.result()
